@@ -62,12 +62,14 @@ def rnd_net3ph(seed, balanced):
         for _ in range(2 if B(0.2) else 1):
             pp.create_transformer_from_parameters(net, levels[k][0], levels[k + 1][0], **kw)
     L0 = LEVELS[chain[0]]
+    rx = R(0.05, 0.6)
+    z0 = dict(x0x_max=R(0.5, 3.), r0x0_max=R(0.05, 0.6)) if B(0.5) else dict(x0x_max=1., r0x0_max=rx)   # z0 != z2 / z0 == z2
     pp.create_ext_grid(net, levels[0][0], vm_pu=R(0.98, 1.05), va_degree=R(-20, 20) if B(0.3) else 0.,
-                       s_sc_max_mva=R(*L0["ssc"]), rx_max=R(0.05, 0.6), x0x_max=R(0.5, 3.), r0x0_max=R(0.05, 0.6))
+                       s_sc_max_mva=R(*L0["ssc"]), rx_max=rx, **z0)
     if B(0.15) and len(levels[0]) > 1:
         pp.create_ext_grid(net, levels[0][-1], vm_pu=float(net.ext_grid.vm_pu.iloc[0]) + R(-0.01, 0.01),
                            va_degree=float(net.ext_grid.va_degree.iloc[0]) + R(-0.3, 0.3), s_sc_max_mva=R(*L0["ssc"]),
-                           rx_max=R(0.05, 0.6), x0x_max=R(0.5, 3.), r0x0_max=R(0.05, 0.6), in_service=not B(0.3))
+                           rx_max=rx, in_service=not B(0.3), **z0)
 
     def phases(s, lo, hi):
         if balanced:
@@ -81,7 +83,7 @@ def rnd_net3ph(seed, balanced):
     for vn, buses in zip(chain, levels):
         s = LEVELS[vn]["pmax"]
         for b in buses:
-            if b == levels[0][0] and not B(0.3):
+            if b == levels[0][0] and not B(0.1):
                 continue
             oos = lambda: not B(0.08)
             for _ in range(I(0, 2)):
